@@ -1695,6 +1695,7 @@ func lqRunHist(id string, next lqGenFn) Case {
 	nLiq, nMove := 0, 0
 	everHeld := map[int]map[int]bool{}
 	tor := newLqTimeOracle(tags)
+	timeMsgSeen := false // the reported failure is the time oracle's
 	tokensInto := map[int]map[int]int64{} // target -> liquid denom redeemed into it -> the denom's end
 	liquidatedBy := map[int]bool{}
 	outOfModel := false // from the first delegate / clawback op on the history is outside the Coq model
@@ -1858,6 +1859,7 @@ func lqRunHist(id string, next lqGenFn) Case {
 				oracleMsg = fmt.Sprintf("step %d (%s): %s", i, op.Op, m)
 			} else if timeMsg != "" {
 				oracleMsg = fmt.Sprintf("step %d (%s): %s", i, op.Op, timeMsg)
+				timeMsgSeen = true
 			}
 		}
 		pre = post
@@ -1886,9 +1888,19 @@ func lqRunHist(id string, next lqGenFn) Case {
 	return Case{
 		ID: id, Kind: "hist", Input: in, Obs: obsAll,
 		Coq: "[" + strings.Join(steps, ";\n   ") + "]", CoqList: "hist",
-		OracleOK: oracleMsg == "", OracleMsg: oracleMsg,
+		OracleOK: oracleMsg == "", OracleMsg: oracleMsg, Class: lqClassOf(tor, oracleMsg, timeMsgSeen),
 		Nontrivial: nLiq >= 1 && nMove >= 1, Key: string(kb), Tags: lqTagSet(tags),
 	}
+}
+
+// lqClassOf: the known-finding class K18 is attributed only when the reported failure is the time oracle's and the
+// oracle put it into one of the two input shapes (redeem into an account whose own vesting still runs; clawback on such
+// an account afterwards)
+func lqClassOf(tor *lqTimeOracle, msg string, timeMsgSeen bool) string {
+	if msg == "" || !timeMsgSeen {
+		return ""
+	}
+	return tor.class
 }
 
 // ---------------------------------------------------------------- history generator
@@ -2183,7 +2195,7 @@ func (g *lqGen) next(i int, s *lqSnap) (lqOp, bool) {
 
 // ---------------------------------------------------------------- driver
 func liquidDriver(cfg Config, out *Out) error {
-	lqStrict = cfg.Args["strict"] == "1"
+	lqStrict = cfg.Args["strict"] != "0" // the full reading of "releases nothing earlier" is demanded by default
 	if cfg.Replay != "" {
 		i := 0
 		return readReplayInputs(cfg.Replay, func(raw json.RawMessage) error {
